@@ -28,6 +28,7 @@ func runC10(c *Ctx) {
 	ruleNoLeak(c, p, roles)
 	ruleHandshakeWatchdog(c, p)
 	rulePacketDeadline(c, p, "C10.deadline")
+	ruleNoLockAcrossIO(c, p, "C10.lock-io")
 	c.R.Assumptions = append(c.R.Assumptions,
 		"net.Conn.Close unblocks pending reads and writes; errgroup.Wait waits for all goroutines",
 		"decided: shape of the Cancel packet, close on every cancellation path, error provenance, every blocking wait has a context- or sibling-controlled exit, the read deadline honours the context deadline; not decided: the time bound itself")
@@ -711,4 +712,77 @@ func rulePacketDeadline(c *Ctx, p *core.Program, rule string) {
 	default:
 		c.R.Ok(rule, core.FuncName(df), cfg, p.Pos(dl.Pos()), "context deadline selected on the Before edge and on the no-timeout edge")
 	}
+}
+
+// ruleNoLockAcrossIO: no Client mutex is held while the transport is read or written.
+func ruleNoLockAcrossIO(c *Ctx, p *core.Program, rule string) {
+	c.R.Rule(rule, "lock/blocking discipline: in package ch no sync.Mutex / RWMutex is held across an operation that can block on the transport (net.Conn Read/Write, net.Buffers.WriteTo, io.Reader/Writer calls, or a library function that reaches one): cancellation works by a second goroutine writing the Cancel packet and closing the connection while the sender may be blocked in Write, so a lock taken around writes makes the cancel path wait for the very operation it is meant to interrupt")
+	cfg := p.Cfg.Name
+	isIO := func(f *types.Func) bool {
+		if f == nil {
+			return false
+		}
+		n := f.Name()
+		switch {
+		case (n == "Write" || n == "Read") && (core.IsMethod(f, "net", "Conn", n) || core.IsMethod(f, "io", "Writer", n) || core.IsMethod(f, "io", "Reader", n)):
+			return true
+		case core.IsMethod(f, "net", "Buffers", "WriteTo"), core.IsFunc(f, "io", "ReadFull"):
+			return true
+		}
+		return false
+	}
+	blocks := func(call ssa.CallInstruction) bool {
+		if _, isDefer := call.(*ssa.Defer); isDefer {
+			return false
+		}
+		if _, isGo := call.(*ssa.Go); isGo {
+			return false
+		}
+		if isIO(core.CalleeFunc(call)) {
+			return true
+		}
+		if sf := core.StaticFn(call); sf != nil && sf.Blocks != nil && pkgOf(sf) != nil && strings.HasPrefix(pkgOf(sf).Path(), core.PkgCh) {
+			return core.ReachesCallee(sf, isIO, 5)
+		}
+		return false
+	}
+	isLock := func(f *types.Func) bool {
+		return f != nil && (f.Name() == "Lock" || f.Name() == "RLock") && f.Pkg() != nil && f.Pkg().Path() == "sync"
+	}
+	isUnlock := func(f *types.Func) bool {
+		return f != nil && (f.Name() == "Unlock" || f.Name() == "RUnlock") && f.Pkg() != nil && f.Pkg().Path() == "sync"
+	}
+	n := 0
+	for _, fn := range p.Funcs() {
+		if pkgOf(fn) == nil || pkgOf(fn).Path() != core.PkgCh || fn.Blocks == nil {
+			continue
+		}
+		for _, lk := range core.FindCalls(fn, isLock) {
+			if _, isDefer := lk.(*ssa.Defer); isDefer {
+				continue
+			}
+			n++
+			key := core.CallKey(fn, lk)
+			mu := accessPath(lk.Common().Args[0], 0)
+			hits := core.ReachAvoiding(core.PointOf(lk.(ssa.Instruction)), func(x ssa.Instruction) bool {
+				call, ok := x.(ssa.CallInstruction)
+				return ok && blocks(call)
+			}, func(x ssa.Instruction) bool {
+				call, ok := x.(ssa.CallInstruction)
+				if !ok {
+					return false
+				}
+				if _, isDefer := call.(*ssa.Defer); isDefer {
+					return false
+				}
+				return isUnlock(core.CalleeFunc(call)) && accessPath(call.Common().Args[0], 0) == mu
+			}, nil)
+			if len(hits) > 0 {
+				c.R.Bad(rule, key, cfg, p.Pos(hits[0].At.Pos()), "the transport is used while "+mu+" is held ("+core.InstrString(hits[0].At)+"): a goroutine blocked there keeps the lock, and whoever needs it (the cancel path, Close) waits behind a blocked read/write")
+			} else {
+				c.R.Ok(rule, key, cfg, p.Pos(lk.Pos()), mu+" is not held across transport I/O")
+			}
+		}
+	}
+	c.R.Floor(rule, cfg, n, 2)
 }
